@@ -431,7 +431,7 @@ func (b *backend) PropFind(r *http.Request, propfind *internal.PropFind, depth i
 		if err != nil {
 			return nil, err
 		}
-		if r.URL.Path == principalPath {
+		if samePath(r.URL.Path, principalPath) {
 			resp, err := b.propFindUserPrincipal(r.Context(), propfind)
 			if err != nil {
 				return nil, err
@@ -457,7 +457,7 @@ func (b *backend) PropFind(r *http.Request, propfind *internal.PropFind, depth i
 		if err != nil {
 			return nil, err
 		}
-		if r.URL.Path == homeSetPath {
+		if samePath(r.URL.Path, homeSetPath) {
 			resp, err := b.propFindHomeSet(r.Context(), propfind)
 			if err != nil {
 				return nil, err
@@ -814,4 +814,10 @@ func NewPreconditionError(err PreconditionType) error {
 			Raw: []internal.RawXMLValue{*elem},
 		},
 	}
+}
+
+// samePath checks whether two paths address the same resource: a collection
+// can be addressed with or without a trailing slash.
+func samePath(a, b string) bool {
+	return strings.TrimSuffix(a, "/") == strings.TrimSuffix(b, "/")
 }
